@@ -123,7 +123,10 @@ def run(repo='/repo', tier='quick'):
         # ---- C10.c
         pf = db.get('htp_process_%s_header_generic' % side)
         cnt = 'connp->%s_tx->%s_header_repetitions' % (d, 'req' if d == 'in' else 'res')
-        exps = [(b, i, c) for b, i, c in pf.calls('bstr_expand')]
+        # every call that grows or reads through the stored value of the existing header (the merge, and the comparison of a
+        # repeated Content-Length with the stored one): beyond the cap a repeated line is dropped in O(1)
+        exps = [(b, i, c) for b, i, c in pf.calls() if c.get('callee') == 'bstr_expand' or any('h_existing->value' in P.K(a_) or 'h_existing).value' in P.K(a_) for a_ in (c.get('args') or []))]
+        exps = [(b, i, c) for b, i, c in exps if c.get('callee') not in ('htp_log',)]
         if not exps:
             res.violated('C10.c', pf.name + ':merge', 'no site merges a repeated header (rule cannot be evaluated)', pf.loc)
         for b, i, c in exps:
@@ -138,8 +141,9 @@ def run(repo='/repo', tier='quick'):
                 capped = (cnt, '<', 'HTP_MAX_HEADERS_REPETITIONS') in facts and any(x[0] == 'stmt' and P.assigns_field(x[3], cnt.split('->')[-1]) for x in seq)
                 if not (first or capped):
                     bad = end[3]
-            res.check(bad is None and n > 0, 'C10.c', pf.name + ':repetition-cap', 'all %d paths to the merge are the first repetition or pass counter < HTP_MAX_HEADERS_REPETITIONS with counter++' % n,
-                      'a repeated header value is appended without the repetition cap: a header assembled from repeated lines is unbounded (and each merge re-copies it)', c['loc'])
+            res.check(bad is None and n > 0, 'C10.c', pf.name + ':repetition-cap' + ('' if c.get('callee') == 'bstr_expand' else ':' + (c.get('callee') or '?')), 'all %d paths to this use of the stored value are the first repetition or pass counter < HTP_MAX_HEADERS_REPETITIONS with counter++' % n,
+                      ('a repeated header value is appended without the repetition cap: a header assembled from repeated lines is unbounded (and each merge re-copies it)' if c.get('callee') == 'bstr_expand' else
+                       '%s(...h_existing->value...) is reached without the repetition cap: every repeated line beyond the cap still reads through the stored value, whose length the sender chooses - work per line is no longer bounded' % c.get('callee')), c['loc'])
     v = None
     for e in db.enums.values():
         pass
